@@ -37,12 +37,29 @@ class ClassModel:
             for k, v in m.constants().items():
                 if isinstance(v, (int, str, bool)) or v is None:
                     self.env.setdefault(k, v)
-        for cname in self.classes:
-            self.env[cname] = self._ctor(cname)
+        for cname, c in self.classes.items():
+            if any(ast.unparse(b).split(".")[-1] in ("Enum", "IntEnum", "StrEnum", "Flag", "IntFlag") for b in c.bases):
+                from .ordabs import Sym
+
+                self.env[cname] = Sym(cname)  # members are opaque named constants: TokenKind.STRING
+            else:
+                self.env[cname] = self._ctor(cname)
         for fname, fn in self.functions.items():
             self.env[fname] = self._function(fn)
         self.env.update(extra_env or {})
         self._cache: dict[tuple[str, str], Callable | None] = {}
+        # module-level tables (dict / set displays over constants and enum members), in source order; anything the
+        # evaluator cannot build is simply left unbound and reported when something needs it
+        from .ordabs import ModelRaise, Unsupported
+
+        for r in self.rels:
+            for n in repo.mod(r).tree.body:
+                tgt = n.targets[0] if isinstance(n, ast.Assign) and len(n.targets) == 1 else n.target if isinstance(n, ast.AnnAssign) and n.value is not None else None
+                if isinstance(tgt, ast.Name) and tgt.id not in self.env and isinstance(n.value, (ast.Dict, ast.Set, ast.List, ast.Tuple, ast.Call, ast.DictComp, ast.BinOp)):
+                    try:
+                        self.env[tgt.id] = self._ev().ev(n.value)
+                    except (Unsupported, ModelRaise, Exception):  # noqa: BLE001
+                        pass
 
     def _function(self, fn: ast.FunctionDef) -> Callable:
         def call(*args: Any, **kwargs: Any) -> Any:
